@@ -256,6 +256,23 @@ def decimal_shim_validation():
             wrong.append(("adjusted high is not the exact decimal grid point", lo, hi, st, d.high, want))
         elif d2 != d or json_to_distribution(distribution_to_json(d2)) != d2:
             wrong.append(("JSON round trip changes the distribution", lo, hi, st, repr(d), repr(d2)))
+    # grid membership on fine grids: every grid value (as the decimal numeral a user would write, and as low + k*step computed in
+    # binary floating point) and every point of the transformed box must be contained in its own distribution
+    from optuna import _transform as _tr
+    for (lo, hi, st) in [(0.0, 1.0, 1e-5), (0.0, 1.0, 1e-4), (-2.0, 3.0, 1e-3), (100.0, 101.0, 1e-5), (0.0, 1.0, 0.001), (1e-3, 2e-3, 1e-6)]:
+        d = FloatDistribution(lo, hi, step=st)
+        nk = int(round((d.high - d.low) / st))
+        for k in sorted(set(list(range(0, nk + 1, max(1, nk // 997))) + [0, 1, nk - 1, nk, 56789 % (nk + 1)])):
+            n += 1
+            for v in (float(decimal.Decimal(str(lo)) + k * decimal.Decimal(str(st))), lo + k * st):
+                if lo <= v <= d.high and not d._contains(d.to_internal_repr(v)):
+                    wrong.append(("a grid value is not contained in its own distribution", lo, hi, st, v, "contained"))
+                    break
+            t = lo - st / 2 + (k + 0.37) * st
+            if lo - st / 2 <= t <= d.high + st / 2:
+                u = _tr._untransform_numerical_param(t, d, True)
+                if not d._contains(d.to_internal_repr(u)):
+                    wrong.append(("an untransformed point of the box is not contained", lo, hi, st, u, "contained"))
     res = {"result": "ok" if not (bad or wrong) else "mismatch", "programs": n, "queries": 0, "wall_s": time.time() - t0,
            "samples": [{"checked": "str(float(n/10^d)) == numeral; real constructor vs exact decimal arithmetic; real JSON round trip", "cases": n}]}
     if bad:
